@@ -71,13 +71,19 @@ def real_histories(ctx):
         g.set_execmodel("main_thread_only")
         return g.makegateway("popen"), g
 
+    def by_group_remote_default():
+        # only the REMOTE default is main_thread_only (the initiator keeps threads)
+        g = execnet.Group()
+        g.set_execmodel("thread", "main_thread_only")
+        return g.makegateway("popen"), g
+
     def by_socket_host():
         # a socket worker hosted by a main_thread_only gateway runs that gateway's model: its bodies own the host's main thread
         g = execnet.Group()
         g.makegateway("popen//execmodel=main_thread_only//id=host")
         return g.makegateway("socket//installvia=host"), g
 
-    plan = [(h, by_spec) for h in hs] + [(hs[0], by_group_default), (hs[1], by_group_default), (hs[0][:3], by_socket_host)]
+    plan = [(h, by_spec) for h in hs] + [(hs[0], by_group_default), (hs[1], by_group_default), (hs[1], by_group_remote_default), (hs[0][:3], by_socket_host)]
     for h, make in plan:
         gw, own_group = make()
         evs = []
